@@ -513,6 +513,42 @@ func linearRoot(v ssa.Value) ssa.Value {
 	return v
 }
 
+// wideUnsignedToSigned: on the way from the file-derived root to v the value passes a conversion from a 64-bit
+// unsigned type to a signed one (int(x) of a uint64): every value with bit 63 set comes out negative.
+func wideUnsignedToSigned(v ssa.Value) bool {
+	for i := 0; i < 8; i++ {
+		switch x := v.(type) {
+		case *ssa.Convert:
+			src, ok1 := x.X.Type().Underlying().(*types.Basic)
+			dst, ok2 := x.Type().Underlying().(*types.Basic)
+			if ok1 && ok2 && src.Info()&types.IsUnsigned != 0 && dst.Info()&types.IsInteger != 0 && dst.Info()&types.IsUnsigned == 0 {
+				switch src.Kind() {
+				case types.Uint64, types.Uint, types.Uintptr:
+					return true
+				}
+			}
+			v = x.X
+		case *ssa.ChangeType:
+			v = x.X
+		case *ssa.BinOp:
+			if x.Op == token.ADD {
+				if _, ok := x.Y.(*ssa.Const); ok {
+					v = x.X
+					continue
+				}
+				if _, ok := x.X.(*ssa.Const); ok {
+					v = x.Y
+					continue
+				}
+			}
+			return false
+		default:
+			return false
+		}
+	}
+	return false
+}
+
 func isLenOrConst(v ssa.Value, ts *taintState) bool {
 	v = linearRoot(v)
 	if _, ok := v.(*ssa.Const); ok {
@@ -580,6 +616,13 @@ func boundedAt(p *Prog, ts *taintState, fn *ssa.Function, b *ssa.BasicBlock, sin
 				le = false
 			}
 			ge := (op == token.GEQ || op == token.GTR) && truth || (op == token.LSS || op == token.LEQ) && !truth
+			if le && !wideUnsignedToSigned(x) {
+				// an upper bound tested in the unsigned domain (before any conversion to a signed type) also excludes
+				// the values that would turn negative
+				if bt, ok := x.Type().Underlying().(*types.Basic); ok && bt.Info()&types.IsUnsigned != 0 {
+					ge = true
+				}
+			}
 			if le && !upper {
 				upper = true
 				why = append(why, "upper bound established at "+posOf(p, ifi))
@@ -807,7 +850,10 @@ func runTaint(p *Prog, r *RuleRun, which string) {
 		case *ssa.Index:
 			base = x.X
 		}
-		ok, why := boundedAt(p, ts, s.fn, s.ins.Block(), s.op, !countOfVarint, signed && countOfVarint, base)
+		// int(x) of a 64-bit unsigned file value is negative for half of the inputs: a signed `n > len(buf)` test
+		// lets those through and the slice expression panics
+		negPossible := wideUnsignedToSigned(s.op)
+		ok, why := boundedAt(p, ts, s.fn, s.ins.Block(), s.op, !countOfVarint, signed && countOfVarint || negPossible, base)
 		if !ok {
 			if sl, isSl := s.ins.(*ssa.Slice); isSl {
 				if ok2, why2 := redefIdiom(p, s.fn, s.ins.Block(), sl, s.op); ok2 {
@@ -825,6 +871,9 @@ func runTaint(p *Prog, r *RuleRun, which string) {
 			continue
 		}
 		what := "upper bound"
+		if negPossible {
+			what = "bound on both sides (the value is a 64-bit unsigned file value converted to a signed integer: it is negative when bit 63 is set, and a signed comparison with len() lets that through)"
+		}
 		if countOfVarint {
 			what = "test that the byte count is > 0 (it is 0 for a truncated varint and negative for an overlong one)"
 		}
